@@ -857,11 +857,22 @@ func ruleRangeWrappersLive(c *Ctx, r *R) {
 				n++
 				bad := ""
 				var live func(v ssa.Value, d int) bool
+				var chain []*ssa.Call // the helpers of the package being looked through (stopAbove(c.Forward(), upper))
 				live = func(v ssa.Value, d int) bool {
 					if d > 5 {
 						return false
 					}
 					switch x := v.(type) {
+					case *ssa.Parameter:
+						a := argOf(x, chain)
+						if a == ssa.Value(x) {
+							return false
+						}
+						saved := chain
+						chain = nil
+						res := live(a, d+1)
+						chain = saved
+						return res
 					case *ssa.MakeInterface:
 						return live(x.X, d+1)
 					case *ssa.ChangeInterface:
@@ -894,15 +905,35 @@ func ruleRangeWrappersLive(c *Ctx, r *R) {
 						if cal.Blocks != nil && rootFn(cal).Pkg == rootFn(fn).Pkg {
 							okAll := true
 							any := false
+							saved := chain
+							chain = append(append([]*ssa.Call{}, chain...), x)
 							for _, rv := range returnedBy(cal, 0) {
 								any = true
-								if !live(argOf(rv, []*ssa.Call{x}), d+1) {
+								if !live(rv, d+1) {
 									okAll = false
 								}
 							}
+							chain = saved
 							return any && okAll
 						}
 						bad = calleeName(&x.Call)
+						return false
+					case *ssa.Alloc:
+						// fwd := &forwardIterator{c: t.Cursor()} positioned in place: an object of the very type cursor.Forward /
+						// Backward build
+						for _, ctor := range []string{"Forward", "Backward"} {
+							if cf := c.fn(treeRel + ".cursor." + ctor); cf != nil {
+								for _, rv := range returnedBy(cf, 0) {
+									v2 := rv
+									if mi, isMI := v2.(*ssa.MakeInterface); isMI {
+										v2 = mi.X
+									}
+									if types.Identical(origType(derefType(v2.Type())), origType(derefType(x.Type()))) {
+										return true
+									}
+								}
+							}
+						}
 						return false
 					case *ssa.UnOp:
 						if x.Op == token.MUL {
@@ -1076,9 +1107,41 @@ func ruleWrappedCopyNonEmpty(c *Ctx, r *R) {
 			if !fresh {
 				return
 			}
+			// ... at an offset computed from the length of the OLD buffer (len(d.a) - d.front): that is what exceeds a smaller new
+			// buffer when the deque is empty; an offset that is the length of a piece already copied (len(head)) cannot
+			fromOldLen := false
+			var walkLow func(v ssa.Value, d int)
+			walkLow = func(v ssa.Value, d int) {
+				if d > 4 {
+					return
+				}
+				switch x := v.(type) {
+				case *ssa.BinOp:
+					walkLow(x.X, d+1)
+					walkLow(x.Y, d+1)
+				case *ssa.Call:
+					if bi, isB := x.Call.Value.(*ssa.Builtin); isB && bi.Name() == "len" && len(x.Call.Args) == 1 {
+						for _, lf := range valueLeaves(x.Call.Args[0], fr.chain, 0) {
+							if ld, isLd := lf.v.(*ssa.UnOp); isLd && ld.Op == token.MUL {
+								if fld, _, ok := rootField(ld.X); ok && fld == "a" {
+									fromOldLen = true
+								}
+							}
+						}
+					}
+				}
+			}
+			walkLow(sl.Low, 0)
+			if !fromOldLen {
+				return
+			}
 			n++
 			nonEmpty := false
-			for _, g := range guardsOf(b) {
+			gs := append([]guard{}, guardsOf(b)...)
+			for _, call := range fr.chain {
+				gs = append(gs, guardsOf(call.Block())...) // copyTo(newA) called under `if !d.isEmpty()`
+			}
+			for _, g := range gs {
 				cf, ok := g.asCmp()
 				if !ok {
 					continue
@@ -1128,7 +1191,7 @@ func ruleWrappedCopyNonEmpty(c *Ctx, r *R) {
 var _ = late(func() {
 	for _, pid := range []string{"C03", "C01"} {
 		properties[pid].Rules = append(properties[pid].Rules,
-			&Rule{ID: pid + ".insert-where-searched", Floor: 2, Clause: "in Put no structural change of the tree (a call that stores keys, children, n or parent of a node and is not handed the key) happens between the search that placed the key and the insertion that is handed it: the insertion relies on the searched position, a rotation in between moves the separator past the key",
+			&Rule{ID: pid + ".insert-where-searched", Floor: 1, Clause: "in Put no structural change of the tree (a call that stores keys, children, n or parent of a node and is not handed the key) happens between the search that placed the key and the insertion that is handed it: the insertion relies on the searched position, a rotation in between moves the separator past the key",
 				Run: ruleInsertWhereSearched})
 	}
 })
@@ -1140,6 +1203,51 @@ func ruleInsertWhereSearched(c *Ctx, r *R) {
 		return
 	}
 	kP := fn.Params[1]
+	// Put as a wrapper around insert(k, v) bool, which searches and inserts: judged where the search is
+	for hop := 0; hop < 2; hop++ {
+		direct := false
+		var inner *ssa.Function
+		var innerK *ssa.Parameter
+		instrs(fn, func(_ *ssa.BasicBlock, _ int, in ssa.Instruction) {
+			call, ok := in.(*ssa.Call)
+			if !ok {
+				return
+			}
+			cal := staticCallee(&call.Call)
+			if cal == nil {
+				return
+			}
+			if fname(cal) == "searchNode" {
+				direct = true
+				return
+			}
+			if cal.Blocks == nil || rootFn(origin(cal)).Pkg != rootFn(fn).Pkg {
+				return
+			}
+			for ai, a := range call.Call.Args {
+				if resolveVal(a) == ssa.Value(kP) && ai < len(origin(cal).Params) {
+					hasSearch, hasStore := false, false
+					for _, di := range deepInstrs(origin(cal), 1) {
+						if c2, isC := di.in.(*ssa.Call); isC {
+							if f2 := staticCallee(&c2.Call); f2 != nil && fname(f2) == "searchNode" {
+								hasSearch = true
+							}
+							if f2 := staticCallee(&c2.Call); f2 != nil && (fname(f2) == "insertIntoLeaf" || fname(f2) == "overfill") {
+								hasStore = true
+							}
+						}
+					}
+					if hasSearch && hasStore {
+						inner, innerK = origin(cal), origin(cal).Params[ai]
+					}
+				}
+			}
+		})
+		if direct || inner == nil {
+			break
+		}
+		fn, kP = inner, innerK
+	}
 	structural := map[*ssa.Function]bool{}
 	searches := map[*ssa.Function]bool{}
 	classify := func(f *ssa.Function) (isStruct, isSearch bool) {
